@@ -489,4 +489,40 @@ theorem execBlock_mass (fuel : Nat) (w : World) (txs : List Tx) :
   simp only at h ⊢
   exact h
 
+/-! ### end of block -/
+
+theorem escrow_split : ∀ (e : Escrow) (h : Nat),
+    ((dueAt e h).map (·.2)).sum + escrowTotal (notDueAt e h) = escrowTotal e := by
+  intro e h
+  induction e with
+  | nil => simp [dueAt, notDueAt, escrowTotal]
+  | cons p r ih =>
+    obtain ⟨k, a, v⟩ := p
+    simp only [dueAt, notDueAt]
+    by_cases c : k = h
+    · simp only [c, if_true, List.map_cons, List.sum_cons, escrowTotal]; omega
+    · simp only [c, if_false, escrowTotal]; omega
+
+theorem escrowTotal_append : ∀ (e f : Escrow), escrowTotal (e ++ f) = escrowTotal e + escrowTotal f := by
+  intro e f
+  induction e with
+  | nil => simp [escrowTotal]
+  | cons p r ih =>
+    obtain ⟨k, a, v⟩ := p
+    simp only [List.cons_append, escrowTotal, ih]; omega
+
+/-- balances + escrow grow by exactly what the block added to the escrow; balances alone by exactly what was due -/
+theorem afterBlock_exact (b : Bal) (e : Escrow) (h : Nat) (added : Escrow) :
+    total (afterBlock b e h added).1 = total b + ((dueAt (e ++ added) h).map (·.2)).sum ∧
+    total (afterBlock b e h added).1 + escrowTotal (afterBlock b e h added).2
+      = total b + escrowTotal e + escrowTotal added := by
+  unfold afterBlock checkAndMove
+  simp only
+  have h1 := refundMove_total (dueAt (e ++ added) h) b
+  have h2 := escrow_split (e ++ added) h
+  have h3 := escrowTotal_append e added
+  constructor
+  · exact h1
+  · omega
+
 end Rangers.Ledger
